@@ -79,6 +79,20 @@ def fixed_programs(g):
               "fields": [{"name": "user_name", "ty": P("String"), "attrs": {}}, {"name": "last_seen", "ty": OPT(P("u32")), "attrs": {}}]}]
     imap = {x["name"]: x for x in items}
     progs.append({"items": items, "probes": [{"ty": N(x["name"]), "values": g.all_variant_values(N(x["name"]), imap), "de": True} for x in items]})
+    # user types hidden from the derive's syntax: behind a type ALIAS of a container (`type FxItems = Vec<FxItem>`), and as the argument
+    # of a generic type that is inlined (`#[ts(inline)] first: FxPage<Vec<FxRow>>`) — the derive sees a plain path / a parameter `T`,
+    # the dependency is only reached through `visit_generics`
+    items = [{"kind": "struct", "name": "FxItem", "shape": "named", "attrs": {}, "generics": [], "de": True, "fields": [{"name": "sku", "ty": P("u32"), "attrs": {}}]},
+             {"kind": "struct", "name": "FxRow", "shape": "named", "attrs": {}, "generics": [], "de": True, "fields": [{"name": "cells", "ty": P("u8"), "attrs": {}}]},
+             {"kind": "struct", "name": "FxCart", "shape": "named", "attrs": {}, "generics": [], "de": True,
+              "fields": [{"name": "items", "ty": dict(VEC(N("FxItem")), alias="FxItems"), "attrs": {}}, {"name": "count", "ty": P("u8"), "attrs": {}}]},
+             {"kind": "struct", "name": "FxPage", "shape": "named", "attrs": {}, "generics": [{"name": "T"}], "de": True,
+              "fields": [{"name": "content", "ty": {"k": "param", "n": "T"}, "attrs": {}}]},
+             {"kind": "struct", "name": "FxBook", "shape": "named", "attrs": {}, "generics": [], "de": True,
+              "fields": [{"name": "first", "ty": N("FxPage", VEC(N("FxRow"))), "attrs": {"inline": True}}, {"name": "pages", "ty": P("u16"), "attrs": {}}]}]
+    imap = {x["name"]: x for x in items}
+    progs.append({"items": items, "aliases": [{"name": "FxItems", "ty": VEC(N("FxItem"))}],
+                  "probes": [{"ty": N(x["name"]) if not x["generics"] else N(x["name"], P("bool")), "values": g.all_variant_values(N(x["name"]) if not x["generics"] else N(x["name"], P("bool")), imap)[:2], "de": True} for x in items]})
     # `#[ts(inline)]` on the field of a newtype variant of an INTERNALLY tagged enum whose field type is a union: whether the type is
     # written by name or inlined, `{ tag } & ..` must keep the tag on every alternative (`&` binds tighter than `|`)
     items = [{"kind": "enum", "name": "FxShape", "attrs": {}, "generics": [], "de": True,
@@ -91,7 +105,9 @@ def fixed_programs(g):
                            {"name": "Clear", "shape": "unit", "attrs": {}, "fields": []}]},
              {"kind": "enum", "name": "FxIntName", "attrs": {"tag": "type"}, "generics": [], "de": True,
               "variants": [{"name": "Draw", "shape": "tuple", "attrs": {}, "fields": [{"name": None, "ty": N("FxShape"), "attrs": {}}]},
-                           {"name": "Clear", "shape": "unit", "attrs": {}, "fields": []}]}]
+                           {"name": "Clear", "shape": "unit", "attrs": {}, "fields": []},
+                           # an individually `untagged` struct variant of an internally tagged enum carries no tag (serde wants it last)
+                           {"name": "Raw", "shape": "named", "attrs": {"untagged": True}, "fields": [{"name": "raw_bytes", "ty": P("u8"), "attrs": {}}]}]}]
     imap = {x["name"]: x for x in items}
     progs.append({"items": items, "probes": [{"ty": N(x["name"]), "values": g.all_variant_values(N(x["name"]), imap), "de": True} for x in items]})
     # every inflection rule on identifiers that are not in the conventional case: leading underscores, capitals, digits, acronyms
